@@ -858,8 +858,14 @@ func Spec() *core.Spec {
 		Rule: "all programs of length 0..3 (quick) / 0..4 (thorough) over 10 stage kinds {pass, call next 2x, 3x, call next twice concurrently (hedged; judged on the multiset of events), short-circuit with response, short-circuit with error, replace message, replace context, fail after next, rewrite response} " +
 			"for the client chain (scripted server as transport), the server message chain and the server batch-item chain; every program run once alone and once from 16 goroutines sharing the chain (race detector on); " +
 			"the recorded enter/core/exit trace of every request must equal the trace of a reference interpreter, event for event. the server chains also over a core that panics, returns an error or rejects the protocol version; several clients configured from middleware slices sharing a backing array; client stages that detach a cancelled caller context or answer from a cache under an expired deadline; a message middleware substituting a message with another continuation option / version / item list, compared with a middleware-free executor given the substituted message; distinct = distinct (chain, program)",
-		Required: []string{"programs_run.client", "programs_run.server-message", "programs_run.server-batch-item", "concurrent_runs", "events", "hedged_programs_run", "programs_run.core-panic", "programs_run.core-error", "programs_run.core-version", "substituted_messages.option-changed", "substituted_messages.version-changed", "substituted_messages.retried", "detached_context_runs", "items_with_critical_extension", "item_extension_requests", "nested_client_requests", "shared_stage_list_executors", "item_nil_response_requests", "builtin_items_through_item_stages", "stale_connection_clients.cluster", "stale_connection_clients.clone", "stale_connection_calls.mode1", "stale_connection_calls.mode2", "shared_option_clients"},
+		Required: []string{"programs_run.client", "programs_run.server-message", "programs_run.server-batch-item", "concurrent_runs", "events", "hedged_programs_run", "programs_run.core-panic", "programs_run.core-error", "programs_run.core-version", "substituted_messages.option-changed", "substituted_messages.version-changed", "substituted_messages.retried", "detached_context_runs", "items_with_critical_extension", "item_extension_requests", "nested_client_requests", "item_edit_requests", "shared_stage_list_executors", "item_nil_response_requests", "builtin_items_through_item_stages", "stale_connection_clients.cluster", "stale_connection_clients.clone", "stale_connection_calls.mode1", "stale_connection_calls.mode2", "shared_option_clients"},
 		Families: []core.Family{
+			{Name: "item-edits", N: func(tier string) int {
+				if tier == core.Thorough {
+					return 20000
+				}
+				return 300
+			}, Run: itemEdits},
 			{Name: "nested-request", N: func(tier string) int {
 				if tier == core.Thorough {
 					return 2000
